@@ -242,7 +242,7 @@ impl<'a> Outbound<'a> {
         else {
             return false;
         };
-        self.pending_release.swap_remove(position);
+        self.pending_release.remove(position);
         true
     }
 
